@@ -134,7 +134,9 @@ CHECKS['C06'] = dict(
     text=('Lean model of serialize_to_signature, the json.dumps / json.loads(object_pairs_hook=OrderedDict) storage trip '
           'and deserialize_from_signature with the dispatch variant as a parameter. Proved for every well-formed value '
           '(nested/negated/OR/XOR Q, F, Value, combined expressions, enums, tuples, lists, dicts, any depth): with the '
-          'repaired dispatch the reloaded value is the normal form of the original (C06_roundtrip); plain data '
+          'repaired dispatch the reloaded value is the normal form of the original (C06_roundtrip; in particular a Q keeps '
+          'any non-default connector: C06_q_connector_kept, with the tests under which _connector/_negated are written '
+          'read from the source: C06_source_q_kwargs); plain data '
           'round-trips under either dispatch (C06_partial_plain); the reloaded value re-serialises to the same stored '
           'text under either dispatch (C06_reserialize, C06_reserialize_strict); kernel-checked counterexamples for the '
           'strict dispatch (F7, repaired by a fix: commit) and for tuples (F8). The dispatch variant is read from the '
